@@ -27,7 +27,255 @@ def cmp_list_probe(ex, rel, func, left, right):
     return run
 
 
+GEN = "rl4co/envs/scheduling/ffsp/generator.py"
+
+
+def _fn(ex, rel, qual):
+    tree = ex.parse(rel)
+    return ex.find_function(tree, qual) if tree else None
+
+
+def _b(v):
+    return "true" if v else "false"
+
+
+def sentinel_probe(ex):
+    """`schedule = torch.full(..., fill_value=<int>)` in `_reset` → the integer"""
+    import ast
+
+    def run():
+        fn = _fn(ex, REL, "FFSPEnv._reset")
+        if fn is None:
+            return None
+        for n in ast.walk(fn):
+            if (isinstance(n, ast.Assign) and len(n.targets) == 1 and ex.norm(n.targets[0]) == "schedule"
+                    and isinstance(n.value, ast.Call) and ex.norm(n.value.func) == "torch.full"):
+                for kw in n.value.keywords:
+                    if kw.arg == "fill_value":
+                        try:
+                            v = ast.literal_eval(kw.value)
+                        except Exception:
+                            return None
+                        if isinstance(v, int) and not isinstance(v, bool):
+                            return f"({v})"
+        return None
+
+    return run
+
+
+def step_machine_key_probe(ex):
+    """`_step` books the operation with `td['machine_idx']` (true) or `td['stage_machine_idx']` (false):
+    source key of the local `machine_idx` AND the index expressions of the three uses"""
+    import ast
+
+    def run():
+        fn = _fn(ex, REL, "FFSPEnv._step")
+        if fn is None:
+            return None
+        src = None
+        for n in ast.walk(fn):
+            if isinstance(n, ast.Assign) and len(n.targets) == 1 and ex.norm(n.targets[0]) == "machine_idx":
+                src = ex.norm(n.value)
+        if src is None:
+            return None
+        uses = {"sched": None, "dur": None, "mwait": None}
+        for n in ast.walk(fn):
+            if isinstance(n, ast.Subscript):
+                t = ex.norm(n)
+                if t.startswith("td['schedule'][batch_idx,"):
+                    uses["sched"] = t
+                elif t.startswith("td['job_duration'][batch_idx,"):
+                    uses["dur"] = t
+                elif t.startswith("td['machine_wait_step'][batch_idx,"):
+                    uses["mwait"] = t
+        if None in uses.values():
+            return None
+        good = (src == "td['machine_idx']" and uses["sched"] == "td['schedule'][batch_idx,machine_idx,job_idx]"
+                and uses["dur"] == "td['job_duration'][batch_idx,job_idx,machine_idx]"
+                and uses["mwait"] == "td['machine_wait_step'][batch_idx,machine_idx]")
+        if good:
+            return "true"
+        allsm = all("stage_machine_idx" in u or (src == "td['stage_machine_idx']" and "machine_idx" in u) for u in uses.values())
+        return "false" if (allsm or "stage_machine_idx" in src + "".join(uses.values())) else None
+
+    return run
+
+
+def pomo_op_probe(ex):
+    """`pomo_idx = idx // self.bs` in `IndexTables.get_machine_index` → true for `//`, false for `%`"""
+    import ast
+
+    def run():
+        fn = _fn(ex, REL, "IndexTables.get_machine_index")
+        if fn is None:
+            return None
+        for n in ast.walk(fn):
+            if (isinstance(n, ast.Assign) and ex.norm(n.targets[0]) == "pomo_idx" and isinstance(n.value, ast.BinOp)
+                    and ex.norm(n.value.left) == "idx" and ex.norm(n.value.right) == "self.bs"):
+                if isinstance(n.value.op, ast.FloorDiv):
+                    return "true"
+                if isinstance(n.value.op, ast.Mod):
+                    return "false"
+        return None
+
+    return run
+
+
+def reward_slice_probe(ex):
+    """`end_schedule[:, :, :self.num_job]` in `_step`: upper bound of the job slice is `self.num_job` (true:
+    the dummy column is excluded) or absent / `self.num_job + 1` (false)"""
+    import ast
+
+    def run():
+        fn = _fn(ex, REL, "FFSPEnv._step")
+        if fn is None:
+            return None
+        for n in ast.walk(fn):
+            if isinstance(n, ast.Subscript) and ex.norm(n.value) == "end_schedule":
+                t = ex.norm(n.slice).strip("()")
+                if t == ":,:,:self.num_job":
+                    return "true"
+                if t in (":,:,:", ":,:,:self.num_job+1"):
+                    return "false"
+        return None
+
+    return run
+
+
+def init_wait_probe(ex):
+    """`action_mask[..., -1] = 0` in `_reset` → true (wait masked at reset); `= 1` → false"""
+    import ast
+
+    def run():
+        fn = _fn(ex, REL, "FFSPEnv._reset")
+        if fn is None:
+            return None
+        for n in ast.walk(fn):
+            if isinstance(n, ast.Assign) and ex.norm(n.targets[0]) == "action_mask[...,-1]" and isinstance(n.value, ast.Constant):
+                return _b(not bool(n.value.value))
+        return None
+
+    return run
+
+
+def consts_probe(ex):
+    """[increment of job_location, increment of sub_time_idx, decrement of machine waits, decrement of job waits]"""
+    import ast
+
+    def run():
+        st, mv = _fn(ex, REL, "FFSPEnv._step"), _fn(ex, REL, "FFSPEnv._move_to_next_machine")
+        if st is None or mv is None:
+            return None
+        out = [None] * 4
+        for n in ast.walk(st):
+            if isinstance(n, ast.AugAssign) and ex.norm(n.target) == "td['job_location'][batch_idx,job_idx]" \
+                    and isinstance(n.op, ast.Add) and isinstance(n.value, ast.Constant):
+                out[0] = n.value.value
+        for n in ast.walk(mv):
+            if isinstance(n, ast.Assign) and ex.norm(n.targets[0]) == "new_sub_time_idx" and isinstance(n.value, ast.BinOp) \
+                    and isinstance(n.value.op, ast.Add) and ex.norm(n.value.left) == "sub_time_idx[idx]" \
+                    and isinstance(n.value.right, ast.Constant):
+                out[1] = n.value.right.value
+            if isinstance(n, ast.AugAssign) and isinstance(n.op, ast.Sub) and isinstance(n.value, ast.Constant):
+                t = ex.norm(n.target)
+                if t == "machine_wait_steps[step_time_required,:]":
+                    out[2] = n.value.value
+                if t == "job_wait_steps[step_time_required,:]":
+                    out[3] = n.value.value
+        if any(not isinstance(v, int) for v in out):
+            return None
+        return "[" + ", ".join(str(v) for v in out) + "]"
+
+    return run
+
+
+def shape_flags_probe(ex):
+    """[num_machine_total = num_machine * num_stage, stage_table = arange(S).repeat_interleave(M),
+        wait_allowed = job_in_previous_stages + job_waiting_in_stage + done, done rows skipped in the loop
+        (`ready = flatten(done)`; `idx = idx[~ready]`), time += step_time_required, sub reset to 0 on wrap]"""
+    import ast
+
+    def run():
+        g = _fn(ex, GEN, "FFSPGenerator.__init__")
+        it = _fn(ex, REL, "IndexTables.__init__")
+        up = _fn(ex, REL, "FFSPEnv._update_step_state")
+        mv = _fn(ex, REL, "FFSPEnv._move_to_next_machine")
+        if None in (g, it, up, mv):
+            return None
+        f = [False] * 6
+        for n in ast.walk(g):
+            if isinstance(n, ast.Assign) and ex.norm(n.targets[0]) == "self.num_machine_total":
+                f[0] = ex.norm(n.value) in ("num_machine*num_stage", "num_stage*num_machine")
+        for n in ast.walk(it):
+            if isinstance(n, ast.Assign) and ex.norm(n.targets[0]) == "self.stage_table":
+                t = ex.norm(n.value)
+                f[1] = t.startswith("torch.arange(env.num_stage,") and t.endswith(".repeat_interleave(env.num_machine)")
+        for n in ast.walk(up):
+            if isinstance(n, ast.Assign) and ex.norm(n.targets[0]) == "wait_allowed":
+                f[2] = ex.norm(n.value) == "job_in_previous_stages+job_waiting_in_stage+done"
+        txt = [ex.norm(n) for n in ast.walk(mv) if isinstance(n, (ast.Assign, ast.AugAssign))]
+        f[3] = "ready=torch.flatten(td['done'])" in txt and "idx=idx[~ready]" in txt
+        f[4] = "time_idx[idx]+=step_time_required.long()" in txt
+        f[5] = "new_sub_time_idx[step_time_required]=0" in txt
+        return "[" + ", ".join(_b(v) for v in f) + "]"
+
+    return run
+
+
+def gen_probe(ex):
+    """generator: [default num_stage, num_machine, num_job, min_time, max_time] and whether
+    `torch.randint(low=self.min_time, high=self.max_time, …)`"""
+    import ast
+
+    def defaults():
+        fn = _fn(ex, GEN, "FFSPGenerator.__init__")
+        if fn is None:
+            return None
+        names = [a.arg for a in fn.args.args]
+        defs = fn.args.defaults
+        m = dict(zip(names[len(names) - len(defs):], defs))
+        out = []
+        for k in ("num_stage", "num_machine", "num_job", "min_time", "max_time"):
+            if k not in m or not isinstance(m[k], ast.Constant) or not isinstance(m[k].value, int):
+                return None
+            out.append(m[k].value)
+        return "[" + ", ".join(map(str, out)) + "]"
+
+    def lowhigh():
+        fn = _fn(ex, GEN, "FFSPGenerator._generate")
+        if fn is None:
+            return None
+        for n in ast.walk(fn):
+            if isinstance(n, ast.Call) and ex.norm(n.func) == "torch.randint":
+                kw = {k.arg: ex.norm(k.value) for k in n.keywords}
+                if "low" in kw and "high" in kw:
+                    return _b(kw["low"] == "self.min_time" and kw["high"] == "self.max_time")
+        return None
+
+    return defaults, lowhigh
+
+
 def register(ex):
+    ex.probe("ffspSentinel", "Int", "(-999999)", "ffsp/env.py:_reset  `schedule = torch.full(..., fill_value=-999999)`",
+             sentinel_probe(ex))
+    ex.probe("ffspStepUsesMachineIdx", "Bool", "true",
+             "ffsp/env.py:_step  books schedule / duration / machine wait with `td['machine_idx']` (not `stage_machine_idx`)",
+             step_machine_key_probe(ex))
+    ex.probe("ffspPomoFloorDiv", "Bool", "true", "ffsp/env.py:IndexTables.get_machine_index  `pomo_idx = idx // self.bs`",
+             pomo_op_probe(ex))
+    ex.probe("ffspRewardExcludesDummy", "Bool", "true", "ffsp/env.py:_step  `end_schedule[:, :, : self.num_job]`",
+             reward_slice_probe(ex))
+    ex.probe("ffspInitWaitMasked", "Bool", "true", "ffsp/env.py:_reset  `action_mask[..., -1] = 0`", init_wait_probe(ex))
+    ex.probe("ffspStepConsts", "List Nat", "[1, 1, 1, 1]",
+             "ffsp/env.py  `job_location += 1`, `sub_time_idx + 1`, `machine_wait_steps -= 1`, `job_wait_steps -= 1`",
+             consts_probe(ex))
+    ex.probe("ffspShapeFlags", "List Bool", "[true, true, true, true, true, true]",
+             "ffsp  num_machine_total = M*S; stage_table = arange(S).repeat_interleave(M); wait_allowed = prev + waiting + done; "
+             "done rows skipped by the loop; time += wrap; sub := 0 on wrap", shape_flags_probe(ex))
+    gd, glh = gen_probe(ex)
+    ex.probe("ffspGenDefaults", "List Nat", "[2, 3, 4, 2, 10]",
+             "ffsp/generator.py:__init__ defaults num_stage, num_machine, num_job, min_time, max_time", gd)
+    ex.probe("ffspGenLowHigh", "Bool", "true", "ffsp/generator.py:_generate  `torch.randint(low=self.min_time, high=self.max_time, …)`", glh)
     mv, up, st = "FFSPEnv._move_to_next_machine", "FFSPEnv._update_step_state", "FFSPEnv._step"
     ex.probe("ffspMachineReadyCmp", "Cmp", ".eq", "ffsp/env.py:_move_to_next_machine  `machine_wait_step[idx, new_machine_idx] == 0`",
              ex.cmp_probe(REL, mv, "machine_wait_step[idx, new_machine_idx]", "0"))
